@@ -202,12 +202,15 @@ def to_wire(case):
                        [num[x] for x in a['reads']], [num[x] for x in a['dreads']], [num[x] for x in a['writes']],
                        a['acc']])
     vs = []
+    stmts = {s['id']: s for s in case['stmts']}
     for body in case['variants']:
         nodes, places = _tree(body)
+        # custom view predicates enter the predicate list in the order their (phase 1) actions run = declaration order
+        customs = [stmts[i]['name'] for i, _ in places if stmts[i]['k'] == 'vpred']
         pl = []
         for sid, node in places:
-            for j in range(len(acts[sid])):
-                pl.append([sid * 8 + j, node])
+            for j, a in enumerate(expand(stmts[sid], customs)):
+                pl.append([sid * 8 + j, node, a['acc']])
         vs.append([nodes, pl])
     return [ws, [num[k] for k in keys], vs]
 
@@ -369,6 +372,9 @@ def _monitor_report(case, b, acts):
         if fam not in setmode:
             continue
         sid = ctx[1]
+        a = acts[sid // 8][sid % 8] if sid % 8 < len(acts[sid // 8]) else None
+        if a is not None and fam in [f for f, _ in T.DECLARED[a['site']]['writes']]:
+            continue      # read-modify-write of the container the action itself adds to (IRequestExtensions by name)
         for (wsid, wrk, winst) in writes:
             if wrk == rk and winst == inst and wsid // 8 != sid // 8 and phase.get(wsid, 0) >= phase.get(sid, 0):
                 bad.add('H2 violated: phase %s action of %s reads %s written in phase %s'
